@@ -269,6 +269,32 @@ class _NPX:
             return f(x)
         return _np.isfinite(x)
 
+    def isclose(self, a, b, rtol=1e-05, atol=1e-08, equal_nan=False):
+        def f(u, v):
+            u2, v2 = to_rat(u), to_rat(v)
+            if u2 is NotImplemented or v2 is NotImplemented or isinstance(u2, float) or isinstance(v2, float):
+                return bool(_np.isclose(float(u), float(v), rtol=rtol, atol=atol))
+            return bool(core.sym_abs(u2 - v2) <= to_rat(atol) + to_rat(rtol) * core.sym_abs(v2))
+        r = _binary(f)(a, b)
+        if isinstance(r, _np.ndarray):
+            return r.astype(bool)
+        return r
+
+    def allclose(self, a, b, rtol=1e-05, atol=1e-08, equal_nan=False):
+        return bool(_np.all(self.isclose(a, b, rtol=rtol, atol=atol)))
+
+    @staticmethod
+    def flatnonzero(a):
+        return NPX.nonzero(_np.asarray(a).reshape(-1))[0]
+
+    @staticmethod
+    def count_nonzero(a, axis=None):
+        a = _np.asarray(a)
+        if a.dtype == object:
+            b = _np.array([bool(to_rat(v) != 0) for v in a.reshape(-1)], dtype=bool).reshape(a.shape)
+            return _np.count_nonzero(b, axis=axis)
+        return _np.count_nonzero(a, axis=axis)
+
     @staticmethod
     def nonzero(a):
         a = _np.asarray(a)
